@@ -100,35 +100,71 @@ def record_inserts(F):
     return out
 
 
+def _tested_equality(b, sw):
+    """the two operands whose equality the switch at `sw` tests (a pointer `==`, ptr::eq, or the derived eq of a private
+    newtype written in place), with the truth value that the non-zero edge stands for; None if it tests something else"""
+    t = b.blocks[sw]['term']
+    if t['discr']['k'] not in ('copy', 'move') or t['discr']['place']['p']:
+        return None
+    l, at, truth = t['discr']['place']['l'], sw, True
+    for _ in range(8):
+        ds = [d for d in b.defs_of(l) if d[0] in ('stmt', 'call')]
+        if len(ds) > 1:
+            ds = [d for d in ds if d[1] == at] or ds
+        if len(ds) != 1:
+            return None
+        d = ds[0]
+        if d[0] == 'call':
+            c = d[2]
+            nm = c.callee.best if c.callee else ''
+            if c.callee and c.callee.name in ('eq', 'ne') and ('const_ptr' in nm or nm.endswith('ptr::eq') or c.callee.trait == 'std::cmp::PartialEq') and len(c.args) >= 2:
+                return c.args[0], c.args[1], c.bb, truth if c.callee.name == 'eq' else not truth
+            return None
+        rv = d[3]['rv']
+        if rv['k'] == 'binop' and rv.get('op') in ('Eq', 'Ne'):
+            return rv['a'], rv['b'], d[1], truth if rv['op'] == 'Eq' else not truth
+        if rv['k'] == 'use' and rv['op']['k'] in ('copy', 'move') and not rv['op']['place']['p']:
+            l, at = rv['op']['place']['l'], d[1]
+        elif rv['k'] == 'unop' and rv['a']['k'] in ('copy', 'move') and not rv['a']['place']['p']:
+            l, at, truth = rv['a']['place']['l'], d[1], not truth
+        else:
+            return None
+    return None
+
+
 def r3(R3, cfg, F):
+    # the field in which a Record remembers the reloader it was created for: the one Record::new fills from its parameter
+    nb = F.body(REC + 'Record::new')
+    idf = None
+    if nb:
+        ag = [s for _, _, s in nb.assigns() if s['rv']['k'] == 'aggregate' and s['rv'].get('adt') == REC + 'Record']
+        if len(ag) == 1:
+            for nm, op in zip(ag[0]['rv']['fields'], ag[0]['rv']['ops']):
+                vb = common.value_built_from(nb, op)
+                if vb == ['arg1'] or nb.origins(op) == {('arg', 1)}:
+                    idf = nm
+        R3.check(idf is not None, cfg, nb.path, 'record-remembers-its-reloader', 'Record::new must remember the reloader it was created for', nb.loc())
+    else:
+        R3.missing(cfg, 'Record::new')
     ins = record_inserts(F)
     if not ins:
         R3.missing(cfg, 'an insertion into Record.records')
     for b, c, recv in ins:
         ok = False
         for sw, tgt, lab, tst in common.guards_of(b, c.bb):
-            if tst[0] != 'val' or lab == 'sw:0' or not tst[1] or not tst[1][0].startswith('call@bb'):
-                continue
-            eq = [x for x in b.calls() if 'call@bb%d' % x.bb == tst[1][0]]
-            if not eq or not eq[0].callee or len(eq[0].args) < 2:
-                continue
-            nm = eq[0].callee.best
-            if not (eq[0].callee.name == 'eq' and ('const_ptr' in nm or 'std::ptr::eq' == nm or nm.endswith('ptr::eq'))):
-                continue
-            sides = [(common.strip_refs(common.deep_path(b, a)), a['place']['ty'] if a['k'] in ('copy', 'move') else '') for a in eq[0].args[:2]]
-            mine = [x for x in sides if x[0][:1] == recv[:1] and x[0][-1:] == ['reloader']]
-            # the other side: a `&HotReloader` that does not come from the record itself (a parameter, possibly captured)
-            other = [x for x in sides if x not in mine and x[0] and x[0][0].startswith('arg') and 'reloader' not in x[0] and 'hot_reloading::HotReloader' in x[1]]
+            te = _tested_equality(b, sw) if tst[0] == 'val' else None
+            if te is None or (lab == 'sw:0') == te[3]:
+                continue        # not an equality, or the edge on which the two differ
+            sides = []
+            for a in te[:2]:
+                dp = common.value_built_from(b, a, at=te[2])
+                sides.append((dp, a['place']['ty'] if a.get('k') in ('copy', 'move') else ''))
+            mine = [x for x in sides if x[0][:1] == recv[:1] and idf is not None and idf in x[0]]
+            # the other side: made from a `&HotReloader` that does not come from the record itself (a parameter, possibly captured)
+            other = [x for x in sides if x not in mine and x[0] and x[0][0].startswith('arg') and (idf is None or idf not in x[0]) and x[0][:1] != recv[:1]]
             if len(mine) == 1 and len(other) == 1:
                 ok = True
         R3.check(ok, cfg, b.path, 'insert-guarded-by-reloader-identity', 'a dependency must be recorded only when the recording cache is the cache being read (self.reloader == reloader)', c.loc())
-    nb = F.body(REC + 'Record::new')
-    if nb:
-        ag = [s for _, _, s in nb.assigns() if s['rv']['k'] == 'aggregate' and s['rv'].get('adt') == REC + 'Record']
-        ok = len(ag) == 1 and nb.origins(dict(zip(ag[0]['rv']['fields'], ag[0]['rv']['ops']))['reloader']) == {('arg', 1)}
-        R3.check(ok, cfg, nb.path, 'record-remembers-its-reloader', 'Record::new must remember the reloader it was created for', nb.loc())
-    else:
-        R3.missing(cfg, 'Record::new')
 
 
 def r4(R4, cfg, F):
